@@ -30,6 +30,7 @@ package cleaner
 
 //@ func (*IdleInvoker).Acquire
 //@   props C12
+//@   loop 0 invariant lock-held-and-monitor-invariant: held(i.lock) == 1 && (i.wakeup != nil ==> i.useCount == 0) && i == old(i)
 //@   modifies IdleInvoker.useCount, IdleInvoker.wakeup, closed
 //@   ghostset acquired[i] = old(acquired(i)) + 1 if r0 == nil
 
